@@ -205,6 +205,18 @@ def check_C10(c):
                             {"request": r, "implementation": a, "input_text": unhx(r.split("\t")[1])})
             if outcome_class(a):
                 c.violation("implementation-vs-property", "tokenizer did not return: " + a[:20], {"request": r, "implementation": a})
+            # classification: a function name is a name whose next token is `(`; a reference is one whose next token is not;
+            # true/True/false/False are booleans, never names
+            if a.startswith("OK\tok"):
+                f = a.split("\t")
+                items = [x.split(":") for x in f[2].split()] if len(f) > 2 and f[2] else []
+                for i, it in enumerate(items):
+                    nxt_open = i + 1 < len(items) and items[i + 1][0] == "1" and items[i + 1][1] == "28"
+                    if (it[0] == "7" and not nxt_open) or (it[0] == "6" and nxt_open) or \
+                       (it[0] in ("6", "7") and unhx(it[1]) in ("true", "True", "false", "False")):
+                        c.violation("implementation-vs-property", "token misclassified (%s): function name ⇔ next token is `(`; keywords are booleans" % label,
+                                    {"request": r, "implementation": a, "input_text": unhx(r.split("\t")[1])})
+                        break
     oracle(reqs, impl, "built-in set")
     # extended operator set (prefix-closed): registered symbolic and word operators
     pre = ["REG\tinfix\t%s\t115\tcalc\tleft\t(arg 0)" % hx(o) for o in ["**", "~", "=~", "<=>", "hi", "inside", "<~", "<~>"]] + \
@@ -221,6 +233,22 @@ def check_C10(c):
     impl2, model2 = both(reqs2, timeout=900)
     c.add_stream(Stream("TOK extended operator set", reqs2, impl2, model2, numeric=False))
     oracle(reqs2[len(pre):], impl2[len(pre):], "extended set")
+    # character probes: every scalar value (quick: all below U+3100 — every script's punctuation, all Unicode
+    # white space and controls — plus every 97th above; thorough: all 1,112,064) in four scanner contexts:
+    # look-ahead after a name, identifier continuation, number run, operator extension
+    def cps():
+        for cp in range(0, 0x110000):
+            if 0xD800 <= cp <= 0xDFFF:
+                continue
+            if cp < 0x3100 or not c.quick() or cp % 97 == 0:
+                yield cp
+    probes = []
+    for cp in cps():
+        ch = chr(cp)
+        probes += [tok_req("f" + ch + "(1)"), tok_req("ab" + ch + "cd"), tok_req("12" + ch + "34"), tok_req("<" + ch + "=")]
+    implp, modelp = both(probes, timeout=1200)
+    c.add_stream(Stream("character probes in scanner contexts", probes, implp, modelp, numeric=False))
+    oracle(probes, implp, "character probes")
     # known finding KF-C10-gap: an operator set that is not prefix-closed (only `=~=` registered, not `=~`)
     kf = ["REG\tinfix\t%s\t115\tcalc\tleft\t(arg 0)" % hx("=~="), tok_req("1 =~= 2")]
     impl3, model3 = both(kf)
